@@ -5,6 +5,8 @@ real package: that is how a verifier counterexample is replayed.  No z3 here.
 The symbolic interpretation of the same names is pyvc/spec_sym.py.
 """
 import importlib
+import enum as _enum
+import types as _types
 import math
 import random
 
@@ -87,6 +89,7 @@ def _reset(inputs, seed=0):
     S.inputs = dict(inputs)
     S.results = []
     S.missing = []
+    S.stubbed = False
     S.drawn = {}
     S.rng = random.Random(seed)
     _install_fake_random()
@@ -157,7 +160,7 @@ def vec(name, n=3):
     return np.array([real("%s_%d" % (name, i)) for i in range(n)])
 
 
-def symarr(name, n=None, kind="real"):
+def symarr(name, n=None, kind="real", sample=None):
     if n is None:
         n = integer(name + "_len")
     vals = S.inputs.get(name)
@@ -171,7 +174,7 @@ def symarr(name, n=None, kind="real"):
         elif kind == "int":
             out.append(int(_num(v, S.rng.randint(0, 3))))
         else:
-            out.append(float(_num(v, S.rng.uniform(-2, 2))))
+            out.append(float(_num(v, S.rng.uniform(-2, 2) if sample is None else S.rng.uniform(sample[0], sample[1]))))
     S.drawn.setdefault(name, {"points": {str(i): (x if isinstance(x, (bool, int)) else float(x)) for i, x in enumerate(out)}})
     return np.array(out, dtype={"bool": bool, "int": int}.get(kind, float))
 
@@ -220,7 +223,10 @@ def sigma(fn, n):
 
 def fresh_index(name, n):
     v = S.inputs.get(name)
-    i = int(_num(v, 0))
+    if v is None and name in S.drawn:
+        return S.drawn[name]
+    i = int(_num(v, S.rng.randrange(int(n)) if int(n) > 0 else 0))
+    S.drawn[name] = i
     if not (0 <= i < n):
         raise AssumptionFailed("index %s=%d outside [0,%d)" % (name, i, n))
     return i
@@ -373,7 +379,14 @@ def ite(c, a, b):
     return a if _truth(c) else b
 
 
-def eq(a, b, tol=None):
+def eq(a, b, tol=None, scale=None):
+    """equality up to floating-point rounding.  `scale` (native only): the magnitude of the quantities the compared values
+    were computed from - rounding errors are relative to that, not to the (possibly zero) values themselves"""
+    if scale is not None:
+        try:
+            return bool(np.all(np.abs(np.asarray(a) - np.asarray(b)) <= (tol if tol is not None else 1e-9) * float(scale)))
+        except TypeError:
+            pass
     rt = tol if tol is not None else S.rel_tol
     if a is None or b is None:
         return a is b
@@ -477,7 +490,9 @@ def _reach(x, acc, depth=0):
     elif isinstance(x, tuple):
         for e in x:
             _reach(e, acc, depth + 1)
-    elif hasattr(x, "__dict__") and not isinstance(x, type) and not callable(x):
+    elif hasattr(x, "__dict__") and not isinstance(x, type) and not callable(x) and not isinstance(x, _enum.Enum) \
+            and not isinstance(x, _types.ModuleType):
+        # enum members and modules are shared by design and immutable: not mutable state
         acc[id(x)] = x
         for e in x.__dict__.values():
             _reach(e, acc, depth + 1)
@@ -512,7 +527,9 @@ def raises(excname, fn, *a, **k):
 
 
 def use_stub(target, stub_fn):
-    pass
+    # natively the real callee runs (a replay then checks the caller together with the real callee); a cross-check of a
+    # discharged harness is meaningless when the stub stands for arbitrary callee behaviour, so the fact is recorded
+    S.stubbed = True
 
 
 def use_lib_stub(names, stub_fn):
